@@ -59,8 +59,9 @@ Definition r56_phys : R := - L * m² / (E0² - m²).
 Lemma d_x_dpx : is_derive (fun t => dr_x L 0 t 0 0) 0 L.
 Proof.
   unfold dr_x, dr_Pl, dr_Pxy2, dr_Px, dr_P, Rsqr. auto_derive.
-  - repeat split; try lra. replace (1 + - (0 * / (1 + 0) * (0 * / (1 + 0)) + 0 * / (1 + 0) * (0 * / (1 + 0)))) with 1 by (field; lra). lra.
-  - replace (1 + - (0 * / (1 + 0) * (0 * / (1 + 0)) + 0 * / (1 + 0) * (0 * / (1 + 0)))) with 1 by (field; lra).
+  - match goal with |- context [sqrt ?e] => replace e with 1 by (unfold Rdiv; field; lra) end.
+    rewrite sqrt_1. repeat split; lra.
+  - match goal with |- context [sqrt ?e] => replace e with 1 by (unfold Rdiv; field; lra) end.
     rewrite sqrt_1. field.
 Qed.
 
@@ -74,6 +75,63 @@ Proof.
     fold (cb_p0c E0 m). fold p0. repeat split; try lra. rewrite <- Hp2. apply Rlt_0_sqr; lra.
     apply Rmult_integral_contrapositive_currified; [apply Rmult_integral_contrapositive_currified; [lra|apply Rinv_neq_0_compat; lra]|lra].
   - replace (E0 + 0 * p0) with E0 by ring. replace (E0 * E0 + - (m * m)) with (E0² - m²) by (unfold Rsqr; ring).
-    fold (cb_p0c E0 m). fold p0. rewrite <- Hp2. unfold Rsqr. field. lra.
+    fold (cb_p0c E0 m). fold p0. clearbody p0. replace (m²) with (E0² - p0²) by lra. unfold Rsqr. field. repeat split; try lra; nra.
 Qed.
+
+(* delta-partial of tau through the whole of Drift._track_bmadx (conversions included) *)
+Lemma jac_tau_delta :
+  is_derive (fun t => ctau (drift_bmadx_track L E0 m (mkc 0 0 0 0 0 t))) 0 r56_phys.
+Proof.
+  pose proof (p0_pos E0 m Hm HE) as Hp. fold p0 in Hp.
+  apply (is_derive_ext_loc (fun t => L * (1 / (cb_beta t E0 m * 1) - E0 / p0))); [| exact d_tau_ddelta].
+  assert (He : 0 < (E0 - m) / p0) by (apply Rdiv_lt_0_compat; lra).
+  exists (mkposreal _ He). intros t Ht.
+  unfold ball in Ht; simpl in Ht; unfold AbsRing_ball, abs, minus, plus, opp in Ht; simpl in Ht.
+  assert (Hph : phys t E0 m).
+  { unfold phys, cb_energy. fold p0. repeat split; try lra.
+    assert (- ((E0 - m) / p0) < t) by (apply Rabs_def2 in Ht; lra).
+    assert (- (E0 - m) < t * p0); [| lra].
+    replace (- (E0 - m)) with (- ((E0 - m) / p0) * p0) by (field; lra). apply Rmult_lt_compat_r; lra. }
+  assert (Z : forall pz, dr_Pxy2 0 0 pz = 0) by (intro; unfold dr_Pxy2, dr_Px, Rdiv, Rsqr; ring).
+  assert (Hok : dr_ok (to_bmad E0 m (mkc 0 0 0 0 0 t))).
+  { split; simpl; [apply (cb_bphys t E0 m Hph) | rewrite Z; lra]. }
+  destruct (drift_bmadx_closed L E0 m Hm HE (mkc 0 0 0 0 0 t) Hph Hok) as [C _]. cbv zeta in C. rewrite C. simpl.
+  unfold dr_Pl. rewrite Z, Rminus_0_r, sqrt_1. fold p0. ring.
+Qed.
+
+(* px-partial of x through the whole of Drift._track_bmadx *)
+Lemma jac_x_px : is_derive (fun t => cx (drift_bmadx_track L E0 m (mkc 0 t 0 0 0 0))) 0 L.
+Proof.
+  apply (is_derive_ext (fun t => dr_x L 0 t 0 0)); [| exact d_x_dpx].
+  intros t. unfold drift_bmadx_track, to_cheetah, driftx, to_bmad; simpl. rewrite (cb_pz_0 E0 m Hm HE). reflexivity.
+Qed.
+
+(* x, y do not depend on tau; px, py are returned untouched (for every input) *)
+Lemma track_px_py v : cpx (drift_bmadx_track L E0 m v) = cpx v /\ cpy (drift_bmadx_track L E0 m v) = cpy v.
+Proof. split; reflexivity. Qed.
 End Jacobian.
+
+(** with the electron rest energy of the linear maps, the R56 above is Drift.transfer_map's R56 *)
+Lemma r56_phys_is_drift_r56 L E0 : m_e < E0 -> r56_phys L E0 m_e = drift_r56 L E0.
+Proof.
+  intros HE. assert (Hm : 0 < m_e) by (unfold m_e; lra).
+  unfold r56_phys, drift_r56, beta_of, igamma2_of, gamma_of.
+  destruct (Req_EM_T (E0 / m_e) 0) as [Z|_].
+  { exfalso. assert (E0 = 0); [| lra]. replace E0 with (E0 / m_e * m_e) by (field; lra). rewrite Z; ring. }
+  assert (G : 0 < 1 - 1 / (E0 / m_e)²).
+  { assert (X : 1 - 1 / (E0 / m_e)² = (E0² - m_e²) / E0²) by (unfold Rsqr; field; lra). rewrite X.
+    apply Rdiv_lt_0_compat; [apply sqd_pos; assumption | apply Rlt_0_sqr; lra]. }
+  rewrite Rsqr_sqrt by lra. unfold Rsqr in *. field. repeat split; try lra; nra.
+Qed.
+
+Lemma drift_jacobian_entries L E0 : m_e < E0 ->
+  is_derive (fun t => cx (drift_bmadx_track L E0 m_e (mkc 0 t 0 0 0 0))) 0 (c1 (c0 (drift_map L E0))) /\
+  is_derive (fun t => ctau (drift_bmadx_track L E0 m_e (mkc 0 0 0 0 0 t))) 0 (c5 (c4 (drift_map L E0))) /\
+  (forall v, cpx (drift_bmadx_track L E0 m_e v) = cpx v /\ cpy (drift_bmadx_track L E0 m_e v) = cpy v).
+Proof.
+  intros HE. assert (Hm : 0 < m_e) by (unfold m_e; lra). split; [| split].
+  - exact (jac_x_px L E0 m_e Hm HE).
+  - change (c5 (c4 (drift_map L E0))) with (drift_r56 L E0).
+    rewrite <- r56_phys_is_drift_r56 by assumption. exact (jac_tau_delta L E0 m_e Hm HE).
+  - intros v. split; reflexivity.
+Qed.
